@@ -240,5 +240,42 @@ example : cA0.updateInternalState 30000000000 =
     .ok (some .expired, { cA0 with currentTime := 30000000000, state := .disconnected .connectTokenExpired }) :=
   client_token_expired (Or.inl rfl) ⟨by decide, by decide, by decide⟩ (by decide)
 
+/-- the converse direction and the keep-alive case on the same states -/
+example : ∀ ad o s', s2late.updateClient a 11 = .ok (.clientDisconnected 11 ad o, s') →
+    ad = addrA ∧ TimedOut connA s2late.currentTime :=
+  fun ad o s' h => ⟨(server_timeout_only a inv_s2late (i := 0) (c := connA) rfl rfl h).1,
+    (server_timeout_only a inv_s2late (i := 0) (c := connA) rfl rfl h).2.1⟩
+example : ∀ r s', s2at5.updateClient a 11 = .ok (r, s') → r = .none ∨ ∃ out, r = .packetToSend addrA out :=
+  fun r s' h => (server_keeps a inv_s2at5 (i := 0) (c := connA) rfl rfl (by decide) h).2
+example : ¬ TimedOut connA 5000000000 := no_spurious_timeout (Or.inr (by decide))
+example : ∃ pfx rest sq body plain, kaFromA = pfx :: rest ∧
+    Packet.readSequence rest (pfx.toNat / 16) = some (sq, body) ∧
+    a.open connA.receiveKey (Packet.nonce sq) (Packet.additionalData pfx s2.protocolId) body = some plain ∧
+    connA.replayProtection.alreadyReceived sq = false :=
+  authentic_means ⟨2, .keepAlive 0 0, RP.new.advance 2, by decide +kernel, Or.inl rfl⟩
+/-- the forged keep-alive: the AEAD does not open it -/
+example : ¬ Authentic a s2 connA forgedKa := forged_or_replayed_not_authentic (by
+  intro pfx rest sq body hb hrs
+  simp only [forgedKa, List.cons.injEq] at hb
+  obtain ⟨rfl, rfl⟩ := hb
+  have h1 : Packet.readSequence (3 :: (leBytes 0 4 ++ leBytes 0 4 ++ List.replicate 15 0 ++ [1])) ((20 : UInt8).toNat / 16)
+      = some (3, leBytes 0 4 ++ leBytes 0 4 ++ List.replicate 15 0 ++ [1]) := by decide +kernel
+  rw [h1] at hrs
+  simp only [Option.some.injEq, Prod.mk.injEq] at hrs
+  obtain ⟨rfl, rfl⟩ := hrs
+  left
+  decide +kernel)
+example : ∃ r s' c', s2.processPacket a addrA kaFromA = .ok (r, s') ∧ At s'.clients 0 c' ∧
+    c'.lastPacketReceivedTime = s2.currentTime ∧ ident c' = ident connA ∧ sessions s'.clients = sessions s2.clients :=
+  authentic_refreshes inv_s2 (by decide) (by decide) (i := 0) (c := connA) rfl rfl
+    ⟨2, .keepAlive 0 0, RP.new.advance 2, by decide +kernel, Or.inl rfl⟩
+/-- a requesting client 1 s into its 30 s token, 5 s timeout: goes on -/
+example : cA0.updateInternalState 1000000000 = .ok (none, { cA0 with currentTime := 1000000000 }) :=
+  client_connecting_continues (Or.inl rfl) ⟨by decide, by decide, by decide⟩ (by decide) (by decide)
+/-- the keep-alive moved client A's receive timer (`cA3` → `cA4`): it decoded under the server-to-client key -/
+example : ∃ sq pk w', Packet.decode a kaA cA3.connectToken.protocolId (some cA3.connectToken.serverToClientKey)
+    (some cA3.replayProtection) = (.ok (sq, pk), w') ∧ cA4.lastPacketReceivedTime = cA3.currentTime :=
+  client_refresh_only_decoded cA_keepalive (by decide)
+
 end Examples
 end RenetVerif.C18
